@@ -9,6 +9,12 @@ Tie     : extracted bodies of PooledJSONRPCServer.server_close / serve_forever /
 Monitor : the property statement: every reply answers its own request (unique tokens, concurrent clients, all pool
           sizes), a malformed or failing request does not stop the service, every stop operation returns once in-flight
           requests complete, afterwards the listening socket is closed and the workers of the stopped pool are dead.
+Stage 2 : the hand-over to the request pool under the deterministic scheduler (harness/poolpaths.py, no sockets): a real
+          PooledJSONRPCServer (bind_and_activate=False, default or user pool) whose `process_request_thread` is a recording
+          stub; a managed accept-loop thread calls `process_request` for a sequence of fake requests, interleaved with the
+          pool workers in every way (random, PCT; thorough: bounded-preemption DFS); then `server_close()`.  Monitor: every
+          accepted request is handled exactly once while the pool is not stopped (none lost, none duplicated);
+          `server_close()` returns once in-flight handlers complete, socket closed, pool stopped, every worker terminates.
 """
 import itertools
 import json
@@ -20,11 +26,13 @@ import threading
 import time
 
 import impl
+import poolpaths as pp
 
 REQUIRED_THEOREMS = [
     "C12_isolation", "C12_once", "C12_close_no_stuck", "C12_shutdown_no_stuck", "C12_close_steps_enabled",
-    "C12_close_post", "C12_close_without_serving",
+    "C12_close_post", "C12_close_without_serving", "C12_pool_instantiation", "C09_at_most_once", "C09_none_after_stop",
     "C12_gen_serverClose", "C12_gen_serveFlag", "C12_gen_processRequest",
+    "C12_gen_poolRetireRule", "C12_gen_poolGrowthRule", "C12_gen_poolPendingStores", "C12_gen_poolUnlockedAccesses",
 ]
 
 WATCHDOG = 6.0
@@ -361,7 +369,30 @@ def concurrent_clients(ctx, kind, family, tmpdir, pool_spec, nclients, ncalls):
     return viol
 
 
+def pooled_stage(ctx):
+    """Second stage: process_request -> request pool on the real ThreadPool under harness/sched.py (budget: ~9 s quick)."""
+    pp.explore(ctx, "C12", "pooled-requests", pp.gen_accept_program, pp.small_accept_programs, 900, 9000, 300)
+    ctx.rule += ("; stage 2: random sequences of fake requests (handlers that return, raise, block on a gate) handed by a managed "
+                 "accept loop to the REAL PooledJSONRPCServer.process_request / ThreadPool (default (30,0) and user pools max 1..3, "
+                 "min 0..max) under harness/sched.py with uniform / sticky / PCT schedules (thorough: bounded-preemption DFS), "
+                 "then server_close() after the drain or with handlers in flight")
+    ctx.assumptions.append("C12 stage 2: harness/sched.py shims stand for CPython's threading/queue; the handler body "
+                           "(socketserver's process_request_thread) is a recording stub; time-outs expire only at quiescence")
+
+
 def run(ctx):
+    run_sockets(ctx)
+    pooled_stage(ctx)
+
+
+def search(ctx):
+    """Tie broken and no monitor hit yet: one bounded search (scheduler stage first: cheap; then the socket stage once)."""
+    pooled_stage(ctx)
+    if not ctx.violations:
+        run_sockets(ctx)
+
+
+def run_sockets(ctx):
     ctx.rule = ("life-cycle histories over {serve, request, slow request in flight, shutdown, server_close} enumerated "
                 "exhaustively up to length 4 (quick) / 5 (thorough) for plain and pooled servers (default pool, user pools of "
                 "size 1 and (2,1)), over TCP and Unix sockets, each op under a watchdog; plus N concurrent clients (quick 8, "
@@ -441,6 +472,8 @@ def run(ctx):
 
 def replay(payload):
     case = payload.get("case", {})
+    if case.get("stage") in pp.RUNNERS:
+        return pp.replay(payload, "C12")
     print(json.dumps(case, indent=1, default=repr))
     if "history" not in case:
         return 2
